@@ -41,6 +41,13 @@ type simPKI struct {
 	ServerCNOnly      map[string]*kit.Cert // CN = server name, subjectAltName present but without any dNSName (an IP address only)
 	ServerOddEKU      map[string]*kit.Cert // extended key usage lists a private OID only
 	ClientOddEKU      map[string]*kit.Cert
+	// certificates whose own signature does not verify although it is well-formed: the issuer named is an ECDSA CA
+	// (the root, or InterEC), the signature was made with another key of the same type
+	InterEC           *kit.Cert            // ECDSA-keyed CA under the root
+	ForgedInter       *kit.Cert            // names the (ECDSA) root as issuer, signed by a stranger's P-256 key
+	ServerForgedLeaf  map[string]*kit.Cert // names InterEC as issuer, signed by a stranger's P-256 key: chain leaf, InterEC
+	ServerUnderForged map[string]*kit.Cert // properly signed by ForgedInter: chain leaf, ForgedInter
+	ClientForgedLeaf  map[string]*kit.Cert
 	RootPool, BadPool *zx509.CertPool
 	InterPool         *zx509.CertPool
 }
@@ -89,6 +96,9 @@ func pki() *simPKI {
 		p.DeepCA = kit.MakeCert(kit.CertSpec{Name: "CA below a pathlen-0 CA", Key: "p256_12", IsCA: true, MaxPathLen: -1, Issuer: p.Inter, Serial: 6})
 		p.ServerDeep, p.ClientDeep, p.ServerUnderLeaf, p.ClientUnderLeaf = map[string]*kit.Cert{}, map[string]*kit.Cert{}, map[string]*kit.Cert{}, map[string]*kit.Cert{}
 		p.ServerCNOnly, p.ServerOddEKU, p.ClientOddEKU = map[string]*kit.Cert{}, map[string]*kit.Cert{}, map[string]*kit.Cert{}
+		p.ServerForgedLeaf, p.ServerUnderForged, p.ClientForgedLeaf = map[string]*kit.Cert{}, map[string]*kit.Cert{}, map[string]*kit.Cert{}
+		p.InterEC = kit.MakeCert(kit.CertSpec{Name: "Sim EC Intermediate CA", Key: "p256_13", IsCA: true, MaxPathLen: 0, Issuer: p.Root, Serial: 7})
+		p.ForgedInter = kit.MakeCert(kit.CertSpec{Name: "Forged Intermediate CA", Key: "p256_14", IsCA: true, MaxPathLen: 0, Issuer: p.Root, IssuerKey: "p256_15", Serial: 8})
 		n = 200
 		for _, kind := range []string{"rsa", "p256", "p384", "ed"} {
 			n += 10
@@ -99,6 +109,9 @@ func pki() *simPKI {
 			p.ServerCNOnly[kind] = kit.MakeCert(kit.CertSpec{Name: serverName, Key: keyOfKind[kind], Issuer: p.Inter, IPs: []net.IP{net.ParseIP("10.9.9.9")}, Serial: n + 4})
 			p.ServerOddEKU[kind] = kit.MakeCert(kit.CertSpec{Name: serverName, Key: keyOfKind[kind], Issuer: p.Inter, DNSNames: []string{serverName}, Serial: n + 5, UnknownEKU: true})
 			p.ClientOddEKU[kind] = kit.MakeCert(kit.CertSpec{Name: "client-" + kind, Key: clientKeyOfKind[kind], Issuer: p.Inter, Serial: n + 6, UnknownEKU: true})
+			p.ServerForgedLeaf[kind] = kit.MakeCert(kit.CertSpec{Name: serverName, Key: keyOfKind[kind], Issuer: p.InterEC, IssuerKey: "p256_15", DNSNames: []string{serverName}, Serial: n + 7})
+			p.ServerUnderForged[kind] = kit.MakeCert(kit.CertSpec{Name: serverName, Key: keyOfKind[kind], Issuer: p.ForgedInter, DNSNames: []string{serverName}, Serial: n + 8})
+			p.ClientForgedLeaf[kind] = kit.MakeCert(kit.CertSpec{Name: "client-" + kind, Key: clientKeyOfKind[kind], Issuer: p.InterEC, IssuerKey: "p256_15", Serial: n + 9, ClientAuth: true})
 		}
 		p.RootPool = zx509.NewCertPool()
 		p.RootPool.AddCert(zparse(p.Root.DER))
